@@ -113,7 +113,7 @@ Definition observe (h : heap) (m : mesh) : obs :=
         (read_map h (v1 m)) (read_map h (v2 m)) (read_map h (v3 m)) (read_map h (v4 m)).
 
 Inductive status := Ok | Declared | Crash.
-Inductive result := RNew (h : heap) (m : mesh) | RSame (h : heap) | RErr (c : status).
+Inductive result := RNew (h : heap) (m : mesh) | RMany (h : heap) (ms : list mesh) | RSame (h : heap) | RErr (c : status).
 
 (* contents of the fresh array of Modify / Translate / Scale / Rotate / ApplyTRS / meshops attribute transformers /
    normals: exact integer arithmetic where the harness keeps Go's float arithmetic exact, otherwise the values
@@ -149,7 +149,20 @@ Inductive op :=
 | ORemoveUnref (i : nat)
 | OWeld (i : nat) (name : N) (newidx : list cell) (keep : list nat)
 | ORepeat (i : nat) (pid : N) (vals : list (list cell))          (* repeat.Mesh: one transformed Position array per TRS *)
-| OExport (fmt : nat) (i : nat).                                 (* ply / obj / gltf / stl writers: read only *)
+| OExport (fmt : nat) (i : nat)                                  (* ply / obj / gltf / stl writers: read only *)
+| OSetData (k : kind) (i : nat) (cont : list (N * list cell))   (* SetFloatKData(caller's map of caller's slices): the whole map is replaced *)
+| OIdent (i : nat)
+      (* operations that hand back their receiver: Scan*Attribute*, ScanPrimitives*, Transform() without transformers,
+         RemoveNullFaces3D when nothing is removed, SplitOnUniqueMaterials with fewer than two materials, a
+         VertexColorSpaceTransformer that skips a missing attribute *)
+| OFilter (k : kind) (i : nat) (name : N) (req : list topology) (keepidx : list cell)
+      (* meshops.FilterFloatK / RemoveNullFaces3D: needs attribute name (and a topology of req);
+         RemovedUnreferencedVertices(m.SetIndices(the kept indices, appended one by one)) *)
+| OCrop (i : nat) (name : N) (keep : list nat)                   (* meshops.CropFloat3Attribute: the vertices kept, NewPointCloud *)
+| OMulti (i : nat) (name : option N) (req : list topology) (parts : list (list cell * option Z)).
+      (* meshops.SliceByPlaneWithAttribute (two parts, materials shared) and SplitOnUniqueMaterials (one part per
+         material, own material entry): attribute data copied once (readAllFloatNData), per part an index list
+         appended three at a time, then RemovedUnreferencedVertices *)
 
 Record state := mkState { heap_of : heap; pool : list mesh }.
 
@@ -195,6 +208,20 @@ Fixpoint build_map (h : heap) (cont : list (N * list (list cell))) (drop_empty :
       let (h2, a) := build_map h1 r drop_empty in
       (h2, if drop_empty && (len s =? 0) then a else amap_set a name s)
   end.
+
+(* a map handed in by the caller: one caller-allocated array per entry *)
+Fixpoint alloc_map (h : heap) (cont : list (N * list cell)) : heap * amap :=
+  match cont with
+  | [] => (h, [])
+  | (name, xs) :: r =>
+      let (h1, s) := new_slice h xs 0 in
+      let (h2, a) := alloc_map h1 r in
+      (h2, amap_set a name s)
+  end.
+
+(* readAllFloatNData: per attribute iter.ReadFull = make([]T,0) and one append per element *)
+Definition copy_map (h : heap) (a : amap) : heap * amap :=
+  build_map h (map (fun e => (fst e, map (fun x => [x]) (read h (snd e)))) a) false.
 
 (* ---- Mesh.Append ------------------------------------------------------------------------------------- *)
 (* appendData, first loop (over the receiver's attributes).
@@ -279,6 +306,40 @@ Definition shift_of (used : list bool) (i : nat) : nat := length (filter negb (f
 
 Fixpoint flip3 (xs : list cell) : list cell :=
   match xs with a :: b :: c :: r => b :: a :: c :: flip3 r | _ => [] end.
+
+Definition with_idx (m : mesh) (s : slice) : mesh := mkMesh (topo m) s (mats m) (v1 m) (v2 m) (v3 m) (v4 m).
+Definition with_mats (m : mesh) (s : slice) : mesh := mkMesh (topo m) (idx m) s (v1 m) (v2 m) (v3 m) (v4 m).
+
+(* meshops.RemovedUnreferencedVertices; None = index out of range (runtime panic) *)
+Definition remove_unref (h : heap) (m : mesh) : option (heap * mesh) :=
+  let is := idx_nats h m in
+  let n := attr_length m in
+  if all_below is n then
+    let used := used_flags is n in
+    let (h1, r) := rebuild h m (kept_vertices used) true (topo m) nil_slice (mats m) in
+    let (h2, s) := new_slice h1 (map (fun i => nat_cell (i - shift_of used i)) is) 0 in
+    Some (h2, with_idx r s)
+  else None.
+
+(* SliceByPlane / SplitOnUniqueMaterials: one result per part *)
+Fixpoint multi_loop (h : heap) (m : mesh) (parts : list (list cell * option Z)) : option (heap * list mesh) :=
+  match parts with
+  | [] => Some (h, [])
+  | (ix, omat) :: r =>
+      let (h1, s) := append_chunks h nil_slice (triples ix) in
+      let (h2, ms) := match omat with
+                      | None => (h1, mats m)
+                      | Some mat => new_slice h1 [[Z.of_nat (len s / index_size (topo m)); mat]] 0
+                      end in
+      match remove_unref h2 (with_mats (with_idx m s) ms) with
+      | Some (h3, x) =>
+          match multi_loop h3 m r with
+          | Some (h4, xs) => Some (h4, x :: xs)
+          | None => None
+          end
+      | None => None
+      end
+  end.
 
 Definition has_topo (req : list topology) (t : topology) : bool :=
   match req with [] => true | _ => existsb (topo_eqb t) req end.
@@ -392,15 +453,7 @@ Definition exec (fixed : bool) (h : heap) (p : list mesh) (o : op) : result :=
       end
   | ORemoveUnref i =>
       match get i with
-      | Some m =>
-          let is := idx_nats h m in
-          let n := attr_length m in
-          if all_below is n then
-            let used := used_flags is n in
-            let (h1, r) := rebuild h m (kept_vertices used) true (topo m) nil_slice (mats m) in
-            let (h2, s) := new_slice h1 (map (fun i => nat_cell (i - shift_of used i)) is) 0 in
-            RNew h2 (mkMesh (topo r) s (mats r) (v1 r) (v2 r) (v3 r) (v4 r))
-          else RErr Crash
+      | Some m => match remove_unref h m with Some (h1, r) => RNew h1 r | None => RErr Crash end
       | None => RErr Declared
       end
   | OWeld i name newidx keep =>
@@ -429,11 +482,60 @@ Definition exec (fixed : bool) (h : heap) (p : list mesh) (o : op) : result :=
       | None => RErr Declared
       end
   | OExport _ i => match get i with Some _ => RSame h | None => RErr Declared end
+  | OSetData k i cont =>
+      match get i with
+      | Some m => let (h1, a) := alloc_map h cont in RNew h1 (vset m k a)
+      | None => RErr Declared
+      end
+  | OIdent i => match get i with Some m => RNew h m | None => RErr Declared end
+  | OFilter k i name req keepidx =>
+      match get i with
+      | Some m =>
+          if has_topo req (topo m) then
+            match amap_get (vget m k) name with
+            | Some _ =>
+                let (h1, s) := append_each h nil_slice keepidx in
+                match remove_unref h1 (with_idx m s) with Some (h2, r) => RNew h2 r | None => RErr Crash end
+            | None => RErr Declared
+            end
+          else RErr Declared
+      | None => RErr Declared
+      end
+  | OCrop i name keep =>
+      match get i with
+      | Some m =>
+          if topo_eqb (topo m) Point then
+            match amap_get (v3 m) name with
+            | Some _ =>
+                let (h1, r) := rebuild h m keep true Point nil_slice (mats m) in
+                let (h2, s) := new_slice h1 (map nat_cell (seq 0 (attr_length r))) 0 in
+                RNew h2 (with_idx r s)
+            | None => RErr Declared
+            end
+          else RErr Declared
+      | None => RErr Declared
+      end
+  | OMulti i name req parts =>
+      match get i with
+      | Some m =>
+          if has_topo req (topo m) && match name with Some nm => amap_mem (v3 m) nm | None => true end then
+              let (h1, c4) := copy_map h (v4 m) in
+              let (h2, c3) := copy_map h1 (v3 m) in
+              let (h3, c2) := copy_map h2 (v2 m) in
+              let (h4, c1) := copy_map h3 (v1 m) in
+              match multi_loop h4 (mkMesh (topo m) (idx m) (mats m) c1 c2 c3 c4) parts with
+              | Some (h5, rs) => RMany h5 rs
+              | None => RErr Crash
+              end
+          else RErr Declared
+      | None => RErr Declared
+      end
   end.
 
 Definition step (fixed : bool) (st : state) (o : op) : state * status :=
   match exec fixed (heap_of st) (pool st) o with
   | RNew h m => (mkState h (pool st ++ [m]), Ok)
+  | RMany h ms => (mkState h (pool st ++ ms), Ok)
   | RSame h => (mkState h (pool st), Ok)
   | RErr c => (st, c)
   end.
